@@ -189,9 +189,25 @@ func VfC01_SplitConcurrent() {
 		return
 	}
 	nd.PanicLabel("concurrent-completion")
+	if nd.Param("plain", 1) == 1 {
+		nd.WatchAll(true) // the two completions may interleave at every load and store of shared memory
+	}
 	go func() { ra.SetResponse(newInteger(1)) }()
-	go func() { rb.SetResponse(newInteger(1)) }()
+	go func() { rb.SetResponse(newInteger(2)) }()
 	nd.Quiesce()
+	nd.WatchAll(false)
 	nd.Assert(vfDone(raw.done), "the client's request is completed (exactly once) after both answers")
+	if !vfDone(raw.done) {
+		return
+	}
+	resp := raw.Response()
+	switch cmd {
+	case "del":
+		nd.Assert(resp.Type == Integer && resp.Int == 3, "the combined reply is the sum of the per-key answers, however the two completions interleave")
+	case "mget":
+		nd.Assert(resp.Type == Array && len(resp.Array) == 2 && resp.Array[0].Int == 1 && resp.Array[1].Int == 2, "the combined reply holds the per-key answers by position, however the two completions interleave")
+	case "mset":
+		nd.Assert(resp.Type == SimpleString, "MSET is answered with a status")
+	}
 	nd.Cover("both-answered")
 }
